@@ -97,6 +97,34 @@ def check(ctx, spec):
             else:
                 ctx.notes.append('episode %s/%s crashed (%s); reported by the C03 check' % (c['family'], c['seed'], c['reason']))
 
+    # optional differential runs on pure cores that the property also rests on
+    diff_hits = []
+    if spec.get('diffs'):
+        from . import purecore
+        fp = set(spec.get('diff_footprint', []))
+        for d in spec['diffs']:
+            r = purecore.run_diff(ctx, d, ctx.seed, 1, 'conc')
+            if not r['ok']:
+                broken.append(('harness-build', 'differential harness %s failed:\n%s' % (d['name'], r['log'][-2000:])))
+                continue
+            v, mm, out = C.validate_trace(r['trace'])
+            if v is None:
+                broken.append(('validator', out[-500:]))
+                continue
+            mm = [m for m in mm if (m.split()[2] if len(m.split()) > 2 else '?') in fp or 'validator:' in m]
+            if mm:
+                broken.append(('correspondence', 'model and implementation disagree (%s): %s' % (d['name'], mm[0])))
+            cov.setdefault('diff_records', 0)
+            cov['diff_records'] += v['checked']
+            for vl in r['viols']:
+                if any(vl.split()[1].startswith(p) for p in spec.get('diff_oracles', [])):
+                    diff_hits.append((d, vl))
+    if diff_hits and not hits:
+        d, vl = diff_hits[0]
+        path = C.write_replay(ctx, 'diff-seed%d' % ctx.seed, {'property': ctx.pid, 'kind': 'failing-input', 'harness': d['name'],
+                                                          'seed': ctx.seed, 'oracle': vl})
+        ctx.violations.append((path, ''))
+
     fam = ctl.summarize(results)
     cov['evaluations'] = len(results)
     cov['distinct_nontrivial'] = sum(f['distinct'] for f in fam.values())
@@ -135,7 +163,7 @@ def check(ctx, spec):
             ctx.violations.append((path, ''))
             if len(ctx.violations) >= 3:
                 break
-    elif broken:
+    elif broken and not ctx.violations:
         found = None
         if bdir:
             for i in range(spec.get('search_rounds', 3)):
